@@ -1404,7 +1404,8 @@ class Stmts(Calls):
             seen.add(e.get_id())
             if z3.is_app_of(e, z3.Z3_OP_SEQ_NTH) and e.arg(1).eq(i):
                 c = e.arg(0)
-                if z3.is_app_of(c, z3.Z3_OP_SEQ_CONCAT) and z3.is_app_of(c.arg(c.num_args() - 1), z3.Z3_OP_SEQ_UNIT):
+                if z3.is_app_of(c, z3.Z3_OP_SEQ_CONCAT) and (z3.is_app_of(c.arg(c.num_args() - 1), z3.Z3_OP_SEQ_UNIT)
+                                                             or z3.is_app_of(c.arg(0), z3.Z3_OP_SEQ_UNIT)):
                     if found is not None and not found[0].eq(c):
                         return None
                     found = (c, e)
@@ -1417,6 +1418,18 @@ class Stmts(Calls):
         c, nth = found
         if not z3.is_true(z3.simplify(nt == z3.Length(c))):
             return None
+        if not z3.is_app_of(c.arg(c.num_args() - 1), z3.Z3_OP_SEQ_UNIT):
+            # `[x] + base` (insert at the front): position 0 is x, position j >= 1 is base[j - 1]
+            rest = [c.arg(k) for k in range(1, c.num_args())]
+            base = rest[0] if len(rest) == 1 else z3.Concat(*rest)
+            x = c.arg(0).arg(0)
+            lb = z3.Length(base)
+            body1 = z3.substitute(body, (nth, base[i - 1]))
+            body0 = z3.substitute(z3.substitute(body, (nth, x)), (i, z3.IntVal(0)))
+            r1 = z3.And(i >= 1, i < lb + 1)
+            if fname == 'all':
+                return z3.And(body0, z3.ForAll([i], z3.Implies(r1, body1)))
+            return z3.Or(body0, z3.Exists([i], z3.And(r1, body1)))
         rest = [c.arg(k) for k in range(c.num_args() - 1)]
         base = rest[0] if len(rest) == 1 else z3.Concat(*rest)
         x = c.arg(c.num_args() - 1).arg(0)
